@@ -59,12 +59,16 @@ TOL_SECTOR = 1e-9
 TOL_LABEL = 1e-9
 
 
-def _cfg(t, method, tight=True, mmax=200):
+def _cfg(t, method, tight=True, mmax=200, no_growth=False):
     if tight:
         t.evolve_config = EvolveConfig(method, ivp_rtol=1e-7, ivp_atol=1e-9, force_ovlp=False)
     else:
         t.evolve_config = EvolveConfig(method, force_ovlp=False)
-    t.compress_config = CompressConfig(CompressCriteria.fixed, max_bonddim=mmax)
+    if no_growth:
+        # keep exactly the non-null Schmidt vectors (two-site steps must not pad bonds, see fam_cluster)
+        t.compress_config = CompressConfig(CompressCriteria.threshold, threshold=1e-10)
+    else:
+        t.compress_config = CompressConfig(CompressCriteria.fixed, max_bonddim=mmax)
     return t
 
 
@@ -160,7 +164,7 @@ def _prep_vmf(rng, t):
     """VMF inverts the bond overlap matrices: null Schmidt vectors (over-complete bonds from
     TTNS.random) make the regularised ODE stiff and one call takes 10+ s.  Mostly remove them first
     (lossless compression at threshold 1e-9); the un-prepared path is still taken sometimes."""
-    if rng.random() < 0.12:
+    if rng is not None and rng.random() < 0.12:
         return t, False
     t2 = t.copy()
     t2.compress_config = CompressConfig(CompressCriteria.threshold, threshold=1e-9)
@@ -253,7 +257,7 @@ def _evolve_checked(cx, fam, spec, ttno, h, lab, q, t, method, tau, normalize, t
     key = f"{fam}:{NAME[method]}:{'imag' if imag else 'real'}"
     run.count("call:" + key)
     cx.n += 1
-    _cfg(t, method, tight)
+    _cfg(t, method, tight, no_growth=(fam == "cluster"))
     ps_order = not spec.get("trivial_qn", False) and fam != "cluster"
     t_in = t.copy() if (ps_order and method in (PS, PS2) and tol is not None) else None
     snap = L.snapshot(t)
@@ -405,6 +409,7 @@ def fam_cluster(cx):
         run.count("rejected:random-state")
         return
     hn = np.linalg.norm(h, 2)
+    inner = len(cut) < nn - 1
     state0 = dict(np_seed=seed, kind=kind, qntot=np.asarray(q).tolist(), m_list=m_list, tensors=L.tensors_json(t))
     run.count(f"cluster:bonds={'-'.join(str(x) for x in sorted(set(t.bond_dims)))}")
     cx.distinct.add(("cluster", nn, tuple(sorted(mcut.values())), spec["qn_size"], tuple(sorted(b["kind"] for b in spec["basis"]))))
@@ -417,6 +422,12 @@ def fam_cluster(cx):
         if method is VMF:
             t, prepared = _prep_vmf(rng, t)
             run.count("vmf:prepared" if prepared else "vmf:raw-bonds")
+        elif inner:
+            # exactness needs every bond INSIDE a cluster to be complete w.r.t. the current bond
+            # dimensions around it: drop null Schmidt vectors (lossless) so that a generic state has
+            # inner bonds of dimension min(side, other side); padded/over-complete inner bonds give a
+            # (legitimate) O(tau^3) local error
+            t, _ = _prep_vmf(None, t)
         hist.append((method, tau, normalize))
         new = _evolve_checked(cx, "cluster", spec, ttno, h, lab, q, t, method, tau, normalize, TOL_EXACT, state0, hist)
         if new is None:
